@@ -183,7 +183,7 @@ def apply_canary(canary):
     where find/replace are source snippets inside the function."""
     m = source.module(canary["file"])
     ref = source.FnRef(canary["file"], canary["fn"])
-    seg = ref.source
+    seg = ref.source + "\n"
     if seg.count(canary["find"]) < 1:
         raise LookupError(f"canary {canary['name']}: snippet not found in {canary['fn']} (spec drift)")
     new_seg = seg.replace(canary["find"], canary["replace"], 1)
